@@ -395,6 +395,117 @@ impl calloop::EventSource for Multi {
     }
 }
 
+/// the same with calloop's own Generic as sub-sources (their tokens are private: only the kernel's view is compared)
+struct MultiG {
+    subs: Vec<Generic<std::os::fd::OwnedFd>>,
+    active: Vec<bool>,
+    registered: Vec<bool>,
+}
+
+impl calloop::EventSource for MultiG {
+    type Event = ();
+    type Metadata = ();
+    type Ret = ();
+    type Error = std::io::Error;
+    fn process_events<F>(&mut self, _: calloop::Readiness, _: calloop::Token, _: F) -> Result<PostAction, Self::Error>
+    where
+        F: FnMut((), &mut ()),
+    {
+        Ok(PostAction::Continue)
+    }
+    fn register(&mut self, poll: &mut calloop::Poll, f: &mut calloop::TokenFactory) -> calloop::Result<()> {
+        for i in 0..self.subs.len() {
+            if self.active[i] {
+                self.subs[i].register(poll, f)?;
+                self.registered[i] = true;
+            }
+        }
+        Ok(())
+    }
+    fn reregister(&mut self, poll: &mut calloop::Poll, f: &mut calloop::TokenFactory) -> calloop::Result<()> {
+        for i in 0..self.subs.len() {
+            match (self.active[i], self.registered[i]) {
+                (true, true) => self.subs[i].reregister(poll, f)?,
+                (true, false) => {
+                    self.subs[i].register(poll, f)?;
+                    self.registered[i] = true;
+                }
+                (false, true) => {
+                    self.subs[i].unregister(poll)?;
+                    self.registered[i] = false;
+                }
+                (false, false) => {}
+            }
+        }
+        Ok(())
+    }
+    fn unregister(&mut self, poll: &mut calloop::Poll) -> calloop::Result<()> {
+        for i in 0..self.subs.len() {
+            if self.registered[i] {
+                self.subs[i].unregister(poll)?;
+                self.registered[i] = false;
+            }
+        }
+        Ok(())
+    }
+}
+
+fn kernel_generic_composite_check(args: &Args, res: &mut RunResult) {
+    let mut el: EventLoop<()> = EventLoop::try_new().expect("loop");
+    let h = el.handle();
+    let epfd = el.as_raw_fd();
+    let mut rng = Rng::derive(args.seed, 5050, args.shard);
+    for round in 0..6 {
+        let n = rng.range(2, 4) as usize;
+        let fds: Vec<std::os::fd::OwnedFd> = (0..n).map(|_| sysx::eventfd_new()).collect();
+        let raws: Vec<i32> = fds.iter().map(|f| f.as_raw_fd()).collect();
+        let m = MultiG { subs: fds.into_iter().map(|f| Generic::new(f, Interest::READ, Mode::Level)).collect(), active: (0..n).map(|i| i == 0 || rng.chance(1, 2)).collect(), registered: vec![false; n] };
+        let disp = calloop::Dispatcher::new(m, |_, _, _: &mut ()| {});
+        let tok = h.register_dispatcher(disp.clone()).expect("register");
+        let own = tok.verif_key();
+        for step in 0..30 {
+            {
+                let mut src = disp.as_source_mut();
+                let i = rng.below(n as u64) as usize;
+                src.active[i] = !src.active[i];
+            }
+            if let Err(e) = h.update(&tok) {
+                res.violations.push(viol(args, "no_err", "update-failed", format!("update() of a source made of Generics failed: {}", e), json!({"engine":"tok","generic_composite_round":round,"step":step})));
+                break;
+            }
+            let table = sysx::epoll_table(epfd);
+            let src = disp.as_source_ref();
+            let mut keys = Vec::new();
+            for i in 0..n {
+                match (src.registered[i], table.iter().find(|e| e.tfd == raws[i])) {
+                    (true, Some(e)) => {
+                        keys.push(e.data);
+                        if !same_source(e.data as usize, own) {
+                            res.violations.push(viol(args, "kernel_key", "epoll-data-differs-after-rekeying", format!("fd {} of a Generic sub-source carries key {:#x}, which is not a key of its source {:#x}", raws[i], e.data, own), json!({"engine":"tok","generic_composite_round":round,"step":step})));
+                        }
+                    }
+                    (true, None) => res.violations.push(viol(args, "kernel_key", "registered-fd-missing", format!("fd {} is registered but not in the epoll table", raws[i]), json!({"engine":"tok","generic_composite_round":round,"step":step}))),
+                    (false, Some(_)) => res.violations.push(viol(args, "kernel_key", "unregistered-fd-present", format!("fd {} is unregistered but still in the epoll table", raws[i]), json!({"engine":"tok","generic_composite_round":round,"step":step}))),
+                    (false, None) => {}
+                }
+            }
+            let k = keys.len();
+            keys.sort_unstable();
+            keys.dedup();
+            if keys.len() != k {
+                res.violations.push(viol(args, "kernel_key", "duplicate-live-key", format!("two Generic sub-sources of one source share a kernel key after re-registration: {:?}", table.iter().filter(|e| raws.contains(&e.tfd)).collect::<Vec<_>>()), json!({"engine":"tok","generic_composite_round":round,"step":step})));
+            }
+            res.evaluations += 1;
+            res.nontrivial += 1;
+            res.classes.insert(fnv(&[111, n as u64, src.active.iter().fold(0u64, |a, b| a * 2 + *b as u64)]));
+        }
+        h.remove(tok);
+        drop(disp);
+    }
+    el.dispatch(std::time::Duration::ZERO, &mut ()).ok();
+    res.ev("kernel_generic_rekeying_steps", 180);
+}
+
 fn kernel_composite_check(args: &Args, res: &mut RunResult) {
     let mut el: EventLoop<()> = EventLoop::try_new().expect("loop");
     let h = el.handle();
@@ -483,7 +594,10 @@ fn main() {
         } else {
             kernel_cross_check(&args, &mut res);
         kernel_composite_check(&args, &mut res);
+        kernel_generic_composite_check(&args, &mut res);
             kernel_composite_check(&args, &mut res);
+        kernel_generic_composite_check(&args, &mut res);
+            kernel_generic_composite_check(&args, &mut res);
         }
         for v in &res.violations {
             println!("reproduced: {} :: {}", v.signature(), v.detail);
@@ -537,6 +651,7 @@ fn main() {
         mark_case(&args.out, 0, "kernel");
         kernel_cross_check(&args, &mut res);
         kernel_composite_check(&args, &mut res);
+        kernel_generic_composite_check(&args, &mut res);
     }
 
     res.samples.push(json!({"triple":[ids[ids.len()/2], v_lo, 0x155], "key": format!("{:#x}", pack(ids[ids.len()/2], v_lo as u16, 0x155)), "decoded": format!("{:?}", unpack(pack(ids[ids.len()/2], v_lo as u16, 0x155)))}));
